@@ -74,14 +74,23 @@ def repo_hash():
 
 
 def _prune_cache(keep):
+    """Drop library builds of trees not seen for a while (never one touched in the last 2 hours: another check may be
+    using it), keeping the total bounded."""
     try:
-        dirs = [d for d in os.listdir(CACHE) if d.startswith('lib-')]
+        dirs = [d for d in os.listdir(CACHE) if d.startswith('lib-') and os.path.isdir(os.path.join(CACHE, d))]
     except FileNotFoundError:
         return
+    now = time.time()
     dirs.sort(key=lambda d: os.path.getmtime(os.path.join(CACHE, d)))
-    for d in dirs[:-4]:
-        if d != keep:
-            shutil.rmtree(os.path.join(CACHE, d), ignore_errors=True)
+    stale = [d for d in dirs if d != keep and now - os.path.getmtime(os.path.join(CACHE, d)) > 7200]
+    for d in stale[:max(0, len(dirs) - 6)]:
+        shutil.rmtree(os.path.join(CACHE, d), ignore_errors=True)
+        for f in os.listdir(CACHE):
+            if f.startswith(d + '-') and f.endswith('.lock'):
+                try:
+                    os.unlink(os.path.join(CACHE, f))
+                except OSError:
+                    pass
 
 
 def run_cmd(cmd, **kw):
